@@ -501,3 +501,282 @@ Proof.
       by (unfold doy_of_ord; rewrite ord_jan1; lia).
     destruct (doy_of_ord n >? 1); reflexivity.
 Qed.
+
+(* ------------------------------------------------------------------ 7. spans *)
+
+Lemma div_bounds : forall x c, 0 < c -> c * (x / c) <= x < c * (x / c) + c.
+Proof. intros x c H. pose proof (Z.div_mod x c ltac:(lia)). pose proof (Z.mod_pos_bound x c H). lia. Qed.
+
+(* number of periods of Span(start = a, end = e, step = c) *)
+Definition span_count (a e c : Z) : Z :=
+  if c >? 0 then Z.max 0 ((e - a) / c + 1) else if c <? 0 then Z.max 0 ((a - e) / (- c) + 1) else 0.
+
+Lemma gen_sign_spec : forall c, gen_sign c = if c >? 0 then 1 else if c =? 0 then 0 else -1.
+Proof. reflexivity. Qed.
+
+Lemma range_len_span : forall a e c, py_range_len a (e + gen_sign c) c = span_count a e c.
+Proof.
+  intros a e c. unfold py_range_len, span_count. rewrite gen_sign_spec.
+  destruct (Z.gtb_spec c 0).
+  - replace (e + 1 - a + c - 1) with ((e - a) + 1 * c) by lia. rewrite Z.div_add by lia. reflexivity.
+  - destruct (Z.ltb_spec c 0); [| reflexivity].
+    destruct (Z.eqb_spec c 0); [lia |].
+    replace (a - (e + -1) - c - 1) with ((a - e) + 1 * (- c)) by lia. rewrite Z.div_add by lia. reflexivity.
+Qed.
+
+Lemma span_count_nonneg : forall a e c, 0 <= span_count a e c.
+Proof. intros. unfold span_count. destruct (c >? 0); [lia |]. destruct (c <? 0); lia. Qed.
+
+(* the enumeration start, start+step, ... stays between start and end (in the direction of step) and stops at the
+   last such period *)
+Lemma span_count_spec : forall a e c, c <> 0 ->
+  let n := span_count a e c in
+  (forall i, 0 <= i < n -> (0 < c -> a <= a + i * c <= e) /\ (c < 0 -> e <= a + i * c <= a)) /\
+  (0 < c -> e < a + n * c) /\ (c < 0 -> a + n * c < e) /\
+  (n = 0 <-> (0 < c /\ e < a) \/ (c < 0 /\ a < e)).
+Proof.
+  intros a e c C n. subst n. unfold span_count.
+  destruct (Z.gtb_spec c 0).
+  - pose proof (div_bounds (e - a) c H) as B.
+    repeat split; intros; try lia; try nia.
+  - destruct (Z.ltb_spec c 0); [| lia].
+    pose proof (div_bounds (a - e) (- c) ltac:(lia)) as B.
+    repeat split; intros; try lia; try nia.
+Qed.
+
+(* well-formed spans: what the constructor establishes and the in-place operations preserve *)
+Definition span_wf (s : span) : Prop :=
+  sp_needs s = ep_needs (sp_start s) || ep_needs (sp_end s) /\
+  (sp_needs s = false -> exists p q, sp_start s = At p /\ sp_end s = At q /\ p_freq p = p_freq q).
+
+Lemma span_make_wf : forall a b c s, span_make a b c = Ok s -> span_wf s.
+Proof.
+  intros a b c s H. unfold span_make in H.
+  set (x := match a with Some e => e | None => Ctx (c >? 0) 0 end) in *.
+  set (y := match b with Some e => e | None => Ctx (negb (c >? 0)) 0 end) in *.
+  destruct (ep_needs x || ep_needs y) eqn:N.
+  - injection H as <-. split; cbn; [symmetry; assumption | discriminate].
+  - destruct x as [p |]; [| discriminate]. destruct y as [q |]; [| discriminate].
+    destruct (check_periods p (Some q)) eqn:K; [| discriminate]. injection H as <-.
+    split; cbn; [reflexivity |]. intros _. exists p, q. repeat split. apply check_some. assumption.
+Qed.
+
+Lemma ep_add_needs : forall e k, ep_needs (ep_add e k) = ep_needs e.
+Proof. destruct e; reflexivity. Qed.
+
+Lemma sstep_wf : forall s o, span_wf s -> span_wf (sstep s o).
+Proof.
+  intros s o [W1 W2]. destruct o; unfold sstep, with_state, gen_span_reverse, gen_span_shift, gen_span_shift_start,
+    gen_span_shift_end; (split; cbn [sp_needs sp_start sp_end]; [rewrite ?ep_add_needs, W1; auto using orb_comm |]);
+    intros N; destruct (W2 N) as (p & q & -> & -> & F); cbn [ep_add].
+  - exists q, p. auto.
+  - exists (padd p k), (padd q k). auto.
+  - exists (padd p k), q. auto.
+  - exists p, (padd q k). auto.
+Qed.
+
+Lemma run_ops_wf : forall ops s, span_wf s -> span_wf (run_ops s ops).
+Proof. induction ops; intros; cbn; [assumption |]. apply IHops. apply sstep_wf. assumption. Qed.
+
+Section ResolvedSpan.
+Variables (s : span) (p q : period) (c : Z).
+Hypothesis Hn : sp_needs s = false.
+Hypothesis Hs : sp_start s = At p.
+Hypothesis He : sp_end s = At q.
+Hypothesis Hc : sp_step s = c.
+Hypothesis Hnz : c <> 0.
+
+Let a := p_serial p.
+Let e := p_serial q.
+Let n := span_count a e c.
+
+Lemma resolved_range : span_range s = Ok (a, e + gen_sign c, c).
+Proof. unfold span_range. rewrite Hn, Hs, He, Hc. reflexivity. Qed.
+
+Lemma resolved_len : span_len s = Ok n.
+Proof.
+  unfold span_len. rewrite Hn, resolved_range. cbn [bind range_len].
+  destruct (Z.eqb_spec c 0); [contradiction |]. rewrite range_len_span. reflexivity.
+Qed.
+
+Lemma resolved_iter : span_iter s = Ok (map (fun i => padd p (Z.of_nat i * c)) (seq 0 (Z.to_nat n))).
+Proof.
+  unfold span_iter, span_serials. rewrite Hn, resolved_range. cbn [bind range_list].
+  destruct (Z.eqb_spec c 0); [contradiction |]. cbn [dmap]. f_equal.
+  unfold py_range. rewrite range_len_span, map_map. unfold span_freq. rewrite Hs. reflexivity.
+Qed.
+
+Lemma resolved_nth : forall i,
+  span_nth s i = if (0 <=? i) && (i <? n) then Ok (padd p (i * c))
+                 else if (- n <=? i) && (i <? 0) then Ok (padd p ((i + n) * c))
+                 else Err ErrIndex.
+Proof.
+  intros i. unfold span_nth. rewrite Hn, resolved_range. cbn [bind range_nth].
+  destruct (Z.eqb_spec c 0); [contradiction |]. rewrite range_len_span. fold n.
+  unfold span_freq. rewrite Hs.
+  pose proof (span_count_nonneg a e c). fold n in H.
+  destruct (Z.ltb_spec i 0).
+  - destruct (Z.leb_spec 0 i); [lia |]. cbn [andb].
+    destruct (Z.ltb_spec (i + n) 0), (Z.leb_spec n (i + n)), (Z.leb_spec (- n) i); cbn; try reflexivity; lia.
+  - destruct (Z.leb_spec 0 i); [| lia]. cbn [andb].
+    destruct (Z.ltb_spec i 0); [lia |].
+    destruct (Z.leb_spec n i), (Z.ltb_spec i n), (Z.leb_spec (- n) i); cbn; try reflexivity; lia.
+Qed.
+
+(* indexing agrees with iteration *)
+Lemma resolved_nth_iter : forall i l, span_iter s = Ok l -> 0 <= i < n ->
+  span_nth s i = Ok (nth (Z.to_nat i) l p) /\ (Z.to_nat i < length l)%nat.
+Proof.
+  intros i l L I. rewrite resolved_iter in L. injection L as <-.
+  rewrite resolved_nth.
+  destruct (Z.leb_spec 0 i); [| lia]. destruct (Z.ltb_spec i n); [| lia]. cbn [andb].
+  rewrite map_length, seq_length. split; [| lia].
+  rewrite (nth_indep _ p (padd p (Z.of_nat 0 * c))) by (rewrite map_length, seq_length; lia).
+  rewrite (map_nth (fun i => padd p (Z.of_nat i * c))). rewrite seq_nth by lia.
+  cbn [plus]. rewrite Z2Nat.id by lia. reflexivity.
+Qed.
+
+Lemma resolved_len_iter : forall l, span_iter s = Ok l -> span_len s = Ok (Z.of_nat (length l)).
+Proof.
+  intros l L. rewrite resolved_iter in L. injection L as <-. rewrite resolved_len, map_length, seq_length.
+  rewrite Z2Nat.id by apply span_count_nonneg. reflexivity.
+Qed.
+
+End ResolvedSpan.
+
+(* A resolved span enumerates exactly start, start+step, ... up to end, in the direction of step; its length, its
+   iteration and its indexing (also with negative indices) agree with one another *)
+Theorem span_enumerates : forall s p q c,
+  sp_needs s = false -> sp_start s = At p -> sp_end s = At q -> sp_step s = c -> c <> 0 ->
+  let a := p_serial p in
+  let e := p_serial q in
+  let n := span_count a e c in
+  span_len s = Ok n /\
+  span_iter s = Ok (map (fun i => padd p (Z.of_nat i * c)) (seq 0 (Z.to_nat n))) /\
+  (forall i, 0 <= i < n -> span_nth s i = Ok (padd p (i * c)) /\ span_nth s (i - n) = Ok (padd p (i * c))) /\
+  (forall i, n <= i \/ i < - n -> span_nth s i = Err ErrIndex) /\
+  (forall i, 0 <= i < n -> (0 < c -> a <= a + i * c <= e) /\ (c < 0 -> e <= a + i * c <= a)) /\
+  (0 < c -> e < a + n * c) /\ (c < 0 -> a + n * c < e) /\
+  (n = 0 <-> (0 < c /\ e < a) \/ (c < 0 /\ a < e)).
+Proof.
+  intros s p q c Hn Hs He Hc Hnz a e n.
+  pose proof (span_count_spec a e c Hnz) as (S1 & S2 & S3 & S4). fold n in S1, S2, S3, S4.
+  pose proof (span_count_nonneg a e c) as NN. fold n in NN.
+  refine (conj _ (conj _ (conj _ (conj _ (conj S1 (conj S2 (conj S3 S4))))))).
+  - apply (resolved_len s p q c); assumption.
+  - apply (resolved_iter s p q c); assumption.
+  - intros i I. rewrite !(resolved_nth s p q c) by assumption. fold a e n. split.
+    + destruct (Z.leb_spec 0 i), (Z.ltb_spec i n); try lia. reflexivity.
+    + destruct (Z.leb_spec 0 (i - n)); [lia |]. cbn [andb].
+      destruct (Z.leb_spec (- n) (i - n)), (Z.ltb_spec (i - n) 0); try lia. cbn [andb].
+      f_equal. f_equal. lia.
+  - intros i I. rewrite (resolved_nth s p q c) by assumption. fold a e n.
+    destruct (Z.leb_spec 0 i), (Z.ltb_spec i n), (Z.leb_spec (- n) i), (Z.ltb_spec i 0); cbn; try reflexivity; lia.
+Qed.
+
+(* the full slice s[:] is the whole listing *)
+Lemma select_idx_all : forall (T : Type) (l : list T) k idx,
+  (forall j, k <= j < k + Z.of_nat (length l) -> existsb (Z.eqb j) idx = true) -> select_idx l k idx = l.
+Proof.
+  induction l as [| x l IH]; intros k idx H; cbn [select_idx]; [reflexivity |].
+  rewrite H by (cbn [length]; lia). f_equal. apply IH. intros j J. apply H. cbn [length]. lia.
+Qed.
+
+Lemma in_py_range_unit : forall n j, 0 <= j < n -> existsb (Z.eqb j) (py_range 0 n 1) = true.
+Proof.
+  intros n j J. apply existsb_exists. exists j. split; [| apply Z.eqb_refl].
+  unfold py_range, py_range_len. cbn [Z.gtb Z.compare].
+  replace ((n - 0 + 1 - 1) / 1) with n by (rewrite Z.div_1_r; lia).
+  apply in_map_iff. exists (Z.to_nat j). split; [lia |]. apply in_seq. lia.
+Qed.
+
+Theorem span_slice_full : forall s p q c l,
+  sp_needs s = false -> sp_start s = At p -> sp_end s = At q -> sp_step s = c -> c <> 0 ->
+  span_iter s = Ok l -> span_slice s (None, None, None) = Ok l.
+Proof.
+  intros s p q c l Hn Hs He Hc Hnz L. unfold span_slice.
+  rewrite (resolved_len_iter s p q c Hn Hs He Hc Hnz l L). cbn [bind slice_indices Z.eqb Z.ltb Z.compare].
+  rewrite L. cbn [bind]. f_equal. apply select_idx_all. intros j J. apply in_py_range_unit. lia.
+Qed.
+
+(* shifting a span shifts every period of its listing and keeps the length; the functional form + agrees with the
+   in-place form *)
+Theorem span_shift : forall s p q c k,
+  sp_needs s = false -> sp_start s = At p -> sp_end s = At q -> sp_step s = c -> c <> 0 ->
+  let s' := sstep s (OShift k) in
+  span_len s' = span_len s /\
+  (forall l, span_iter s = Ok l -> span_iter s' = Ok (map (fun x => padd x k) l)) /\
+  (p_freq p = p_freq q -> span_add s k = Ok s').
+Proof.
+  intros s p q c k Hn Hs He Hc Hnz s'.
+  assert (Hn' : sp_needs s' = false) by exact Hn.
+  assert (Hs' : sp_start s' = At (padd p k)) by (subst s'; cbn; rewrite Hs; reflexivity).
+  assert (He' : sp_end s' = At (padd q k)) by (subst s'; cbn; rewrite He; reflexivity).
+  assert (Hc' : sp_step s' = c) by exact Hc.
+  assert (CNT : span_count (p_serial (padd p k)) (p_serial (padd q k)) c = span_count (p_serial p) (p_serial q) c).
+  { cbn [padd p_serial]. unfold gen_period_add, span_count.
+    replace (p_serial q + k - (p_serial p + k)) with (p_serial q - p_serial p) by lia.
+    replace (p_serial p + k - (p_serial q + k)) with (p_serial p - p_serial q) by lia. reflexivity. }
+  refine (conj _ (conj _ _)).
+  - rewrite (resolved_len s' _ _ c Hn' Hs' He' Hc' Hnz), (resolved_len s p q c Hn Hs He Hc Hnz), CNT. reflexivity.
+  - intros l L. rewrite (resolved_iter s p q c Hn Hs He Hc Hnz) in L. injection L as <-.
+    rewrite (resolved_iter s' _ _ c Hn' Hs' He' Hc' Hnz), CNT, map_map. f_equal. apply map_ext. intros i.
+    rewrite !padd_padd. f_equal. lia.
+  - intros F. unfold span_add, span_make. rewrite Hs, He. cbn [ep_add ep_needs orb].
+    rewrite (proj2 (check_some (padd p k) (padd q k))) by exact F.
+    subst s'. unfold sstep, with_state, gen_span_shift. rewrite Hs, He, Hn, Hc. reflexivity.
+Qed.
+
+Lemma rev_map_seq : forall (T : Type) (f : nat -> T) N,
+  rev (map f (seq 0 N)) = map (fun i => f (N - 1 - i)%nat) (seq 0 N).
+Proof.
+  intros T f N. induction N as [| N IH]; [reflexivity |].
+  transitivity (f N :: rev (map f (seq 0 N))).
+  - rewrite seq_S, map_app, rev_app_distr. reflexivity.
+  - rewrite IH. change (seq 0 (S N)) with (0%nat :: seq 1 N). cbn [map].
+    f_equal; [f_equal; lia |].
+    rewrite <- seq_shift, map_map. apply map_ext_in. intros i I. f_equal. lia.
+Qed.
+
+Theorem reverse_involutive : forall s, sstep (sstep s OReverse) OReverse = s.
+Proof.
+  intros s. destruct s as [a b c n]. unfold sstep, with_state, gen_span_reverse. cbn.
+  f_equal. lia.
+Qed.
+
+(* reversal swaps the ends and negates the step; the reversed span lists the same periods backwards exactly when the
+   step divides the distance (otherwise it still enumerates end, end-step, ... down to start, by span_enumerates) *)
+Theorem reverse_exact_when_divisible : forall s p q c l,
+  sp_needs s = false -> sp_start s = At p -> sp_end s = At q -> sp_step s = c -> c <> 0 ->
+  p_freq p = p_freq q ->
+  (p_serial q - p_serial p) mod c = 0 -> span_iter s = Ok l ->
+  span_iter (sstep s OReverse) = Ok (rev l).
+Proof.
+  intros s p q c l Hn Hs He Hc Hnz F D L.
+  set (s' := sstep s OReverse).
+  assert (Hn' : sp_needs s' = false) by exact Hn.
+  assert (Hs' : sp_start s' = At q) by (subst s'; cbn; rewrite He; reflexivity).
+  assert (He' : sp_end s' = At p) by (subst s'; cbn; rewrite Hs; reflexivity).
+  assert (Hc' : sp_step s' = - c) by (subst s'; cbn; rewrite Hc; reflexivity).
+  rewrite (resolved_iter s p q c Hn Hs He Hc Hnz) in L. injection L as <-.
+  rewrite (resolved_iter s' q p (- c) Hn' Hs' He' Hc' ltac:(lia)).
+  set (a := p_serial p) in *. set (e := p_serial q) in *.
+  assert (CNT : span_count e a (- c) = span_count a e c).
+  { unfold span_count. destruct (Z.gtb_spec c 0).
+    - destruct (Z.gtb_spec (- c) 0); [lia |]. destruct (Z.ltb_spec (- c) 0); [| lia].
+      replace (- - c) with c by lia. reflexivity.
+    - destruct (Z.ltb_spec c 0); [| lia]. destruct (Z.gtb_spec (- c) 0); [| lia]. reflexivity. }
+  rewrite CNT, rev_map_seq. f_equal. apply map_ext_in. intros i I. apply in_seq in I.
+  set (n := span_count a e c) in *.
+  assert (NN : 0 <= n) by apply span_count_nonneg.
+  assert (LAST : (n - 1) * c = e - a).
+  { assert (1 <= n) by lia. subst n. unfold span_count in *.
+    destruct (Z.gtb_spec c 0).
+    - pose proof (Z.div_mod (e - a) c Hnz). rewrite D in H1. lia.
+    - destruct (Z.ltb_spec c 0); [| lia].
+      assert (D' : (a - e) mod (- c) = 0).
+      { replace (a - e) with (- (e - a)) by lia. rewrite Z.mod_opp_opp by lia. rewrite D. reflexivity. }
+      pose proof (Z.div_mod (a - e) (- c) ltac:(lia)). rewrite D' in H2. lia. }
+  apply period_ext; cbn [padd p_freq p_serial]; [symmetry; exact F | unfold gen_period_add].
+  fold a e. rewrite Nat2Z.inj_sub, Nat2Z.inj_sub by lia. rewrite Z2Nat.id by lia. cbn [Z.of_nat]. nia.
+Qed.
